@@ -97,6 +97,18 @@ fn conc_order(profile_kinds: [u32; 7]) -> BoxedStrategy<OrderSpec> {
     };
     (gen::order_spec(cfg), 0u8..12)
         .prop_map(|(mut s, stuck)| {
+            if stuck == 1 && s.kind == Kind::Reserve {
+                // an order that shows nothing until a match reaches it (replenished on that visit)
+                s.display = 0;
+                s.hidden = 1 + s.hidden % 10;
+                s.auto = true;
+                s.amount = match s.amount {
+                    Some(a) if a >= 1 && a <= 1000 => Some(a),
+                    Some(_) => Some(7),
+                    None => None,
+                };
+                return s;
+            }
             if stuck == 0 && s.kind.has_hidden() {
                 // an order that shows nothing and cannot replenish (it can only wait): iceberg with
                 // display 0, or reserve with display 0 and replenish amount 0
@@ -536,13 +548,34 @@ struct Event {
     seq: usize,
 }
 
-fn linearize(initial: Option<Order>, events: &[Event], fin: Option<Order>) -> bool {
+fn linearize(initial: Option<Order>, events: &[Event], fin: Option<Order>, any_match: bool) -> bool {
     // DFS over orders consistent with real time (a.end < b.start => a first) and per-call order,
     // memoised on (set of events done, order state) so that an unexplainable history fails fast
     type Memo = HashSet<(u32, Option<(u64, u64)>, bool)>;
-    fn go(state: Option<Order>, dead: bool, events: &[Event], done: u32, fin: &Option<Order>, memo: &mut Memo) -> bool {
+    fn go(state: Option<Order>, dead: bool, events: &[Event], done: u32, fin: &Option<Order>, memo: &mut Memo, any_match: bool) -> bool {
+        if done.count_ones() as usize == events.len() && state == *fin {
+            return true;
+        }
+        // a match that reaches an order showing nothing trades nothing with it but may replenish
+        // it from its hidden quantity (or let it go): a step without an event of its own
+        if any_match {
+            if let Some(o) = &state {
+                if o.visible_quantity() == 0 {
+                    let nx = ref_match(o, 1).next;
+                    if nx != state {
+                        let key = (done | (1 << 31), state.as_ref().map(|o| (o.visible_quantity(), o.hidden_quantity())), dead);
+                        if memo.insert(key) {
+                            let gone = nx.is_none();
+                            if go(nx, gone, events, done, fin, memo, any_match) {
+                                return true;
+                            }
+                        }
+                    }
+                }
+            }
+        }
         if done.count_ones() as usize == events.len() {
-            return state == *fin;
+            return false;
         }
         let key = (done, state.as_ref().map(|o| (o.visible_quantity(), o.hidden_quantity())), dead);
         if !memo.insert(key) {
@@ -595,7 +628,7 @@ fn linearize(initial: Option<Order>, events: &[Event], fin: Option<Order>) -> bo
                 _ => None,
             };
             if let Some((ns, nd)) = next {
-                if go(ns, nd, events, done | (1 << i), fin, memo) {
+                if go(ns, nd, events, done | (1 << i), fin, memo, any_match) {
                     return true;
                 }
             }
@@ -603,7 +636,7 @@ fn linearize(initial: Option<Order>, events: &[Event], fin: Option<Order>) -> bo
         false
     }
     let mut memo: Memo = HashSet::new();
-    go(initial, false, events, 0, &fin, &mut memo)
+    go(initial, false, events, 0, &fin, &mut memo, any_match)
 }
 
 pub struct Judgement {
@@ -799,7 +832,8 @@ pub fn judge(p: &Program, ex: &Execution, drain: bool) -> Judgement {
             unjudged += 1; // beyond the search bound; not judged (counted)
             continue;
         }
-        if !linearize(initial, &events, fin) {
+        let any_match = drained || ex.calls.iter().any(|c| matches!(c.op, TOp::Match(_)));
+        if !linearize(initial, &events, fin, any_match) {
             v.push(CViolation {
                 oracle: COracle::Linear,
                 msg: format!(
